@@ -57,6 +57,28 @@ where T: Types
 
     /// Shared with `FlushWorker`; stores the highest completed seq.
     done_seq: Arc<AtomicU64>,
+
+    /// The FlushWorker thread, joined when the WAL is dropped.
+    worker: Option<std::thread::JoinHandle<()>>,
+}
+
+impl<T> Drop for RaftLogWAL<T>
+where T: Types
+{
+    /// Close the request channel and wait for the FlushWorker to process what
+    /// is still queued (pending writes, syncs and chunk removals) and exit.
+    ///
+    /// Without this the detached worker keeps modifying the directory after
+    /// the `RaftLog` is gone, e.g., it removes purged chunk files while a new
+    /// `RaftLog` is opening the same directory.
+    fn drop(&mut self) {
+        let (closed_tx, _) = std::sync::mpsc::sync_channel(1);
+        drop(std::mem::replace(&mut self.flush_tx, closed_tx));
+
+        if let Some(worker) = self.worker.take() {
+            let _ = worker.join();
+        }
+    }
 }
 
 impl<T> RaftLogWAL<T>
@@ -92,7 +114,7 @@ where T: Types
         let (flush_tx, rx) = std::sync::mpsc::sync_channel(1024);
         let worker = FlushWorker::new(rx, file_entry, cache, done_seq.clone());
 
-        worker.spawn();
+        let worker = worker.spawn();
 
         Self {
             config,
@@ -101,6 +123,7 @@ where T: Types
             flush_tx,
             sent_seq: 0,
             done_seq,
+            worker: Some(worker),
         }
     }
 
